@@ -156,3 +156,45 @@ pub fn c14_urldecode_one_free(front: bool) {
     kani::cover!(r.is_err(), "rejected");
     std::mem::forget(r);
 }
+
+/// 19 fixed raw units ('a') followed by a TAIL of exactly T arbitrary ASCII bytes (any byte
+/// < 0x80, including '%' - so truncated escapes "%", "%X" and stray text after the 20th unit
+/// occur). Reference: split the tail into units at byte level; Ok <=> the tail is exactly one
+/// well-formed unit (T == 1 raw, or T == 3 "%XY" with two hex digits). Never panics.
+pub fn c14_urldecode_tail<const T: usize>() {
+    let mut buf = [0u8; 72];
+    let mut n = 0usize;
+    while n < 19 {
+        buf[n] = b'a';
+        n += 1;
+    }
+    let tail: [u8; T] = kani::any();
+    let mut i = 0;
+    while i < T {
+        kani::assume(tail[i] < 0x80);
+        buf[n] = tail[i];
+        n += 1;
+        i += 1;
+    }
+    let s = unsafe { std::str::from_utf8_unchecked(&buf[..n]) };
+    let r = urldecode_20_bytes(s);
+    let want: Option<u8> = if T == 1 && tail[0] != b'%' {
+        Some(tail[0])
+    } else if T == 3 && tail[0] == b'%' {
+        match (hexval(tail[1]), hexval(tail[2])) {
+            (Some(h), Some(l)) => Some(h * 16 + l),
+            _ => None,
+        }
+    } else {
+        None
+    };
+    match &r {
+        Ok(v) => {
+            assert!(want.is_some(), "identifier with a truncated escape / wrong number of units accepted");
+            assert!(Some(v[19]) == want && v[0] == b'a', "identifier byte decoded wrongly");
+        }
+        Err(_) => assert!(want.is_none(), "well-formed 20-byte identifier rejected"),
+    }
+    kani::cover!(r.is_err(), "rejected");
+    std::mem::forget(r);
+}
